@@ -75,6 +75,60 @@ def runLoop (restoreAtTop : Bool) : Nat → List (List Nat × Bool) → List Dec
     let r := loopIter restoreAtTop bl d
     r.2 :: runLoop restoreAtTop r.1 ds
 
+/-! ### the NTS branch's own per-datagram state
+
+The branch decodes into `var ntsreq nts.Packet`, declared **inside** the loop body (likewise
+`ntpreq`, `serverCookie`, `authenticated`). That matters: `nts.DecodePacket` *appends* the cookie
+fields it finds to `pkt.Cookies` (also when it fails later in the datagram) and the branch then
+authenticates the datagram under the keys sealed in `pkt.FirstCookie()` = `pkt.Cookies[0]`. -/
+
+/-- What the NTS branch sees of one datagram, cookies as opaque ids: the cookie fields
+    `nts.DecodePacket` appends for it, whether `nts.DecodePacket` returns nil, and whether the rest
+    of the branch (`EncryptedServerCookie.Decode`, `provider.Get`, `Decrypt`, `nts.ProcessRequest`
+    of this datagram under that cookie's C2S key, one fresh cookie) succeeds when `FirstCookie()`
+    returns the given cookie. -/
+structure NtsView where
+  cookies : List Nat
+  decodes : Bool
+  okWith : Nat → Bool
+
+/-- the branch on a request struct whose `Cookies` already holds `carried`: outcome, and the
+    cookie list the struct holds afterwards -/
+def ntsBranch (carried : List Nat) (v : NtsView) : Bool × List Nat :=
+  let all := carried ++ v.cookies
+  (v.decodes && (match all with | [] => false | c :: _ => v.okWith c), all)
+
+/-- outcome of the branch for this datagram on a zero-valued request struct -/
+def ntsAlone (v : NtsView) : Bool := (ntsBranch [] v).1
+
+/-- does an iteration reach `nts.DecodePacket` (read not truncated, 48-byte header decoded,
+    something follows the header) -/
+def entersNts (bufLen : Nat) (payload : List Nat) : Bool :=
+  if payload.length > bufLen then false
+  else match decodePacket payload with
+    | .ok _ => payload.length > packetLen
+    | _ => false
+
+/-- One iteration with **all** the state that could survive it: the length of `buf` and the
+    cookie list of the NTS request struct. `freshNts = true` is the code as it is (the struct is
+    declared in the loop body: every datagram starts from the zero value); `freshNts = false`
+    describes a loop whose request struct is declared once outside the loop. -/
+def loopIterN (restoreAtTop freshNts : Bool) (st : Nat × List Nat) (d : List Nat × NtsView) :
+    (Nat × List Nat) × Decision :=
+  let bl := if restoreAtTop then ipServerBufLen else st.1
+  let carried := if freshNts then [] else st.2
+  let br := ntsBranch carried d.2
+  let r := loopIter restoreAtTop st.1 (d.1, br.1)
+  let carried' := if entersNts bl d.1 then br.2 else carried
+  ((r.1, carried'), r.2)
+
+/-- the decisions of that loop on a sequence of datagrams arriving at one listener socket -/
+def runLoopN (restoreAtTop freshNts : Bool) : Nat × List Nat → List (List Nat × NtsView) → List Decision
+  | _, [] => []
+  | st, d :: ds =>
+    let r := loopIterN restoreAtTop freshNts st d
+    r.2 :: runLoopN restoreAtTop freshNts r.1 ds
+
 /-- the listener sends a reply for this datagram -/
 def shouldReply (payload : List Nat) (ntsOk : Bool) : Bool :=
   serve payload ntsOk = .reply
